@@ -165,6 +165,8 @@ func (w *worker) load(state string) bool {
 	if !w.dirty && w.state == state {
 		return true
 	}
+	t0 := time.Now()
+	defer func() { w.ck.ctx.Count("ms_in_state_load", time.Since(t0).Milliseconds()); w.ck.ctx.Count("state_loads", 1) }()
 	for attempt := 0; attempt < 3; attempt++ {
 		if w.s != nil && !w.s.Alive() && w.last != nil {
 			// died after its last reply (or while idle): attribute to the last instance sent
@@ -478,7 +480,9 @@ func (w *worker) runInstance(in *instance, cells []cell) {
 		if in.tm.Flags&wire.FLive != 0 || goesLive(in.args) {
 			wait = 1500 * time.Millisecond
 		}
+		t0 := time.Now()
 		o := w.ask(cl, in.args, wait)
+		ctx.Count("ms_in_ask", time.Since(t0).Milliseconds())
 		if o.status == "skip" {
 			ctx.Count("cells_not_expressible", 1)
 			continue
